@@ -3,6 +3,7 @@
   Property theorems only.
 -/
 import Pongo.Model.ParseDoc
+import Pongo.Props.C13
 import Pongo.Gen.OSAccess
 
 namespace Pongo.C11
@@ -73,6 +74,58 @@ theorem string_template_names_as_written (tplName path : Bytes) : resolveFilenam
   simp [resolveFilename]
 
 /-! ### the code reaches the file system only through the loaders (regenerated) -/
+
+/-! ### what an included template sees, through the interpreter -/
+
+section inclusion
+variable (T : LexTables) (cfg : SetCfg) (g : Env)
+
+/-- the context handed to an included template -/
+def includeCtx (only : Bool) (fr : Frame) (pvs : List (Bytes × Val)) : Env :=
+  pvs.foldl (fun (e : Env) kv => e.set kv.1 kv.2) (if only then [] else (Env.update fr.pub fr.priv))
+
+/-- **`include` executes the template it names, with the includer's variables plus the pairs.**
+    The node of an `include` of a literal name holds the index `ti` of the template that
+    `fromFile` compiled for that name (C11's loader theorems say which one that is); executing
+    the node evaluates the `with` pairs in the includer's scope and executes exactly that template
+    on `includeCtx`. -/
+theorem include_executes_named_template (fuel ti : Nat) (only : Bool) (pairs : List (Bytes × Expr)) :
+    execNode T cfg g (fuel + 1) (.tagInclude (.static ti) only pairs) = (do
+      let fr ← cur
+      let pvs ← evalPairs T cfg g fuel pairs
+      executeTpl T cfg g fuel ti (includeCtx only fr pvs)) := by
+  unfold execNode
+  rfl
+
+/-- with `only`, a name that is not one of the pairs is not there -/
+theorem include_only_hides_includer (fr : Frame) (pvs : List (Bytes × Val)) (k : Bytes) (h : ∀ p ∈ pvs, p.1 ≠ k) :
+    (includeCtx true fr pvs).lookup k = none := by
+  unfold includeCtx
+  rw [C13.foldl_set_other pvs _ k h]
+  rfl
+
+/-- without `only`, a name that is not one of the pairs is the includer's -/
+theorem include_sees_includer (fr : Frame) (pvs : List (Bytes × Val)) (k : Bytes) (h : ∀ p ∈ pvs, p.1 ≠ k) :
+    (includeCtx false fr pvs).lookup k = (Env.update fr.pub fr.priv).lookup k := by
+  unfold includeCtx
+  rw [C13.foldl_set_other pvs _ k h]
+  rfl
+
+/-- a pair is visible under its name (the last one of that name), with or without `only` -/
+theorem include_sees_pair (only : Bool) (fr : Frame) (before after : List (Bytes × Val)) (k : Bytes) (v : Val)
+    (h : ∀ p ∈ after, p.1 ≠ k) :
+    (includeCtx only fr (before ++ (k, v) :: after)).lookup k = some v := by
+  unfold includeCtx
+  rw [List.foldl_append, List.foldl_cons]
+  exact C13.foldl_set_last after _ k v h
+
+example : (includeCtx true default [(b!"a", .int 1)]).lookup b!"b" = none ∧
+    (includeCtx true default [(b!"a", .int 1), (b!"a", .int 2)]).lookup b!"a" = some (.int 2) := by
+  constructor
+  · exact include_only_hides_includer default _ _ (by intro p hp; simp at hp; subst hp; decide)
+  · exact include_sees_pair true default [(b!"a", .int 1)] [] b!"a" (.int 2) (by intro p hp; cases hp)
+
+end inclusion
 
 /-- outside template_loader.go the only use of os / io/fs / ioutil / net/http
     file or network access is `Error.RawLine` (a diagnostic helper that is not
